@@ -99,7 +99,8 @@ func checkC14(r *Run) {
 	r.Rule("every construct table of C05/C01/C03 (featgen, parent×child, minifier tables) and generated programs, compiled for targets ES2015…ES2024 × minify subsets × formats, plus bundled mixed ESM/CJS graphs (runtime helpers and wrappers); " +
 		"each error-free output is parsed by acorn at the target's ecmaVersion after blanking the documented pass-through nodes (dynamic import, bigint literal, import.meta); supported:false overrides are checked with an AST feature detector; " +
 		"non-trivial = distinct (input, target, options) whose output was gated")
-	r.Assume("acorn's ecmaVersion gating is an independent reading of which syntax belongs to which edition; per-engine version tables are not re-derived")
+	r.Assume("acorn's ecmaVersion gating is an independent reading of which syntax belongs to which edition")
+	r.Assume("engine targets: the contents of internal/compat/js_table.go (generated from public compat-table data) are taken as data and read with the documented [start, end) range semantics; what is monitored is the code that interprets them (version parsing/comparison, lowering decisions), at and around every range boundary")
 	var st c14Stats
 	rng := newRng(r.Seed, "c14")
 
@@ -274,6 +275,7 @@ func checkC14(r *Run) {
 			}
 		}
 	}
+	c14Engines(r, pool, &st)
 	var fl []string
 	for k := range gin.Features {
 		fl = append(fl, k)
